@@ -175,6 +175,7 @@ static void check(const Case &cc) {
     if (base.code != E_SUCCESS) COUNT("error_path_input");
     if ((c.fn == DISK || c.fn == DISKDIST || c.fn == NEIGHBOR) && (!ref::valid_cell(c.h) || (c.fn == NEIGHBOR && !ref::valid_cell(c.q)))) COUNT("error_path.invalid_cell_argument");
     if (base.code == E_MEMORY_BOUNDS) COUNT("error_path.E_MEMORY_BOUNDS(capacity too small)");
+    if (c.fn >= POLYFILL) { bool bad = false; auto scan = [&](const std::vector<LatLng> &l) { for (auto &v : l) if (!std::isfinite(v.lat) || !std::isfinite(v.lng) || fabs(v.lat) > 10 || fabs(v.lng) > 10) bad = true; }; scan(c.g.outer); for (auto &h : c.g.holes) scan(h); if (bad) COUNT("error_path.malformed_coordinate"); }
     if (c.fn == COMPACT && base.code == E_SUCCESS) { bool toBase = false; for (uint64_t x : base.out) if (x && ref::res_of(x) == 0) toBase = true; if (toBase) COUNT("compact.reaches_resolution_0"); }
     static Counter faults("fault_points_enumerated");
     faults.n += (uint64_t)(2 * N);
@@ -275,6 +276,14 @@ static Case draw() {
             if (rpick({8, 1}) == 1) c.flags = (uint32_t)ri(4, 40);  // bad flags: error path
             if (rpick({12, 1}) == 1) c.g.outer.clear();              // empty outer loop
             if (c.fn == POLYFILL_EXP) c.k = rpick({3, 1, 1, 1});     // capacity mode (see run)
+            if (rpick({7, 1}) == 1 && !c.g.outer.empty()) {          // error path: one coordinate of the outer loop or of a hole is NaN / infinite / huge
+                static const double BAD[] = {NAN, INFINITY, -INFINITY, 1e300, -1e19};
+                std::vector<LatLng> &loop = (!c.g.holes.empty() && rpick({1, 2})) ? c.g.holes[(size_t)ri(0, (int)c.g.holes.size() - 1)] : c.g.outer;
+                if (!loop.empty()) {
+                    LatLng &v = loop[(size_t)ri(0, (int)loop.size() - 1)];
+                    (rbool() ? v.lat : v.lng) = BAD[ri(0, 4)];
+                }
+            }
             break;
         }
     }
